@@ -6,6 +6,7 @@ import OpusProofs.SilkParamsRangeNlsf2a
 import OpusProofs.SilkParamsRangeBridge
 import OpusProofs.SilkParamsRangeInvGain
 import OpusProofs.SilkSynthIdxCore
+import OpusProofs.SilkSynthIdxHist
 /-
   C18 — SILK side information always dequantises to stable, in-range parameters.
 
@@ -585,6 +586,83 @@ example : (coreAccesses (voicedCoreIn 16 4 [302, 302, 302, 302] 0 0 0 100 false 
     (coreAccesses (voicedCoreIn 16 4 [301, 301, 301, 301] 0 0 0 100 false [] [])).2 = false ∧
     extentsStr (coreAccesses (voicedCoreIn 16 4 [1, 1, 1, 1] 0 0 0 100 false [] [])).1 [.sLTP_Q15] =
       "sLTP_Q15:r=317..640,w=317..639" ∧ Arr.size (cfgOf 16 4) .sLTP_Q15 = 640 := by
+  decide +kernel
+
+namespace SynthExample
+open Opus.SilkSynthIdx
+def fVoiced : FrameIn :=
+  { lost := false, signalType := 2, quantOffsetType := 0, interp := true, pitchL := [288, 288, 280, 285],
+    ltpCoef := List.replicate 20 1000, gains := [70000, 70000, 90000, 65536], gainDiff := [true, false, true, true],
+    adjNe := [true, false, true, true], lowFirst := false }
+def fLost : FrameIn := { fVoiced with lost := true }
+def fUnv : FrameIn := { fVoiced with signalType := 1, pitchL := [0, 0, 0, 0] }
+/-- WB voiced frame at the top of the lag range, two losses (lag drifts to the cap 288), an unvoiced frame
+    (takes the transition branch with `lagPrev = 288`), a switch to NB 10 ms, a loss right after it (PLC
+    re-initialises: `pitchL_Q8 = frame_length << 7`), the side-channel reset, another frame. -/
+def hist : List Ev :=
+  [.setFs 16 4, .frame fVoiced, .frame fLost, .frame fLost, .frame fUnv, .setFs 8 2, .frame fLost, .sideReset, .frame fUnv]
+end SynthExample
+
+open Opus.SilkSynthIdx in
+/-- `silk_PLC_conceal` (silk/PLC.c:216-430) is index-safe on the state invariant.  For a configured decoder
+    (`fs_kHz ∈ {8,12,16}`, `nb_subfr ∈ {2,4}`), `lossCnt ≥ 0`, `sPLC.pitchL_Q8 ∈ [2·fs_kHz, 18·fs_kHz]·256`,
+    `sPLC.nb_subfr ∈ {2,4}`, `0 ≤ sPLC.subfr_length ≤ 80`, either outcome of the energy comparison and
+    every `rand_seed`: `celt_assert( idx > 0 )` and the assertions of `silk_LPC_analysis_filter` do not
+    fire; every access to `sLTP_Q14`, `sLTP`, `exc_buf`, `exc_Q14` (incl. the `rand_ptr[ idx ]` reads,
+    `idx = (silk_RAND >> 25) & 127` — the generator is modelled exactly), `outBuf`, `sLPC_Q14_buf`,
+    `sPLC.LTPCoef_Q14`, `prevLPC_Q12`, `prevGain_Q16`, the attenuation tables (index `min(1, lossCnt)`),
+    `pitchL[0..3]` and `frame[]` is in bounds; the drifting lag (`pitchL_Q8 += pitchL_Q8·0.01`, capped at
+    `18·fs_kHz·256`) stays legal in every sub-frame, so the new `pitchL_Q8` satisfies the invariant again
+    and the lag written to `psDecCtrl->pitchL[]` (which becomes `lagPrev`) lies in `[2·fs_kHz, 18·fs_kHz]`. -/
+theorem plc_conceal_indices_in_bounds (s : DecSt) (h : ConcealOk s) (lowFirst : Bool) :
+    (concealAccesses s lowFirst).2.1 = false ∧ AllIn s.cfg (concealAccesses s lowFirst).1 ∧
+    2 * s.fsKHz * 256 ≤ (concealAccesses s lowFirst).2.2.1 ∧ (concealAccesses s lowFirst).2.2.1 ≤ 18 * s.fsKHz * 256 ∧
+    2 * s.fsKHz ≤ (concealAccesses s lowFirst).2.2.2.2 ∧ (concealAccesses s lowFirst).2.2.2.2 ≤ 18 * s.fsKHz :=
+  concealAccesses_ok s h lowFirst
+
+open Opus.SilkSynthIdx in
+example : ConcealOk (step (step (step resetSt (.setFs 16 4)) (.frame SynthExample.fVoiced)) (.frame SynthExample.fLost)) :=
+  { cfg := by decide +kernel, loss := by decide +kernel, pitch := by decide +kernel, plcNb := by decide +kernel,
+    plcSubfr := by decide +kernel }
+
+open Opus.SilkSynthIdx in
+/-- One call of `silk_decode_frame` (silk/decode_frame.c:44-172: `silk_decode_core` or `silk_PLC_conceal`,
+    `silk_PLC_update` incl. the `silk_PLC_Reset` on a rate change, the `outBuf` shift
+    `mv_len = ltp_mem_length - frame_length`, `silk_CNG` incl. its reset, excitation buffer shift and the
+    `CNG_exc_buf_Q14[ (seed >> 24) & mask ]` reads, `silk_PLC_glue_frames`, the `lagPrev` update) on a configured
+    decoder whose state satisfies the invariant `Inv`, for a frame satisfying `FrameOk` (signal type ≤ 2,
+    offset type ≤ 1, and — decoded voiced frame — lags in the legal range): no assertion fires, EVERY access
+    of EVERY phase is inside its array, and the invariant holds for the next call.  `Inv`: `lossCnt ≥ 0`;
+    `prevSignalType = VOICED ∧ lossCnt ≠ 0 → lagPrev ∈ [2·fs_kHz, 18·fs_kHz]`;
+    `sPLC.pitchL_Q8 ∈ [2, 18]·sPLC.fs_kHz·256`; `sPLC.nb_subfr ∈ {2,4}`; `0 ≤ sPLC.subfr_length ≤ 80`. -/
+theorem decode_frame_indices_in_bounds (s : DecSt) (f : FrameIn) (hcfg : Configured s) (hinv : Inv s)
+    (hf : FrameOk s f) :
+    (frameStep s f).1.aborted = false ∧ AllIn s.cfg (frameStep s f).1.all ∧
+    Inv (frameStep s f).2 ∧ (frameStep s f).2.fsKHz = s.fsKHz ∧ (frameStep s f).2.nbSubfr = s.nbSubfr :=
+  frameStep_ok s f hcfg hinv hf
+
+open Opus.SilkSynthIdx in
+/-- THE COMPOSED STATEMENT: the SILK synthesis is index-safe over EVERY history.  Starting from
+    `silk_init_decoder` (`resetSt`), for every finite sequence of events — `silk_decoder_set_fs` with a legal
+    rate / frame size (a rate change resets `lagPrev`, `prevSignalType`, `first_frame_after_reset`; the PLC and
+    CNG states notice the new rate at their next call and re-initialise), the side-channel reset of
+    dec_API.c:302-309, a full reset, decoded frames (any signal type, offsets, gains, LTP coefficients;
+    voiced frames with lags as `silk_decode_pitch` delivers them) and lost frames, in any order and number,
+    frames only on a configured decoder — every `silk_decode_frame` call of the history runs without a
+    fired `celt_assert` and with every array access in bounds.  This discharges the `lagPrev` hypothesis of
+    `decode_core_indices_in_bounds`: it is part of the invariant, established by `silk_PLC_conceal`. -/
+theorem silk_synthesis_indices_in_bounds (evs : List Ev) (h : HistOk resetSt evs) :
+    HistSafe resetSt evs ∧
+    ∀ p ∈ histFrames resetSt evs, (frameStep p.1 p.2).1.aborted = false ∧ AllIn p.1.cfg (frameStep p.1 p.2).1.all :=
+  ⟨hist_safe evs resetSt inv_reset h, histSafe_frames evs resetSt (hist_safe evs resetSt inv_reset h)⟩
+
+
+open Opus.SilkSynthIdx SynthExample in
+example : HistOk resetSt hist ∧
+    (histFrames resetSt hist).map (fun p => (p.1.lossCnt, p.1.prevSignalType, p.1.lagPrev, p.1.pitchLQ8, p.1.plcFs)) =
+      [(0, 0, 100, 0, 0), (0, 2, 285, 72960, 16), (1, 2, 288, 73728, 16), (2, 2, 288, 73728, 16), (0, 0, 100, 73728, 16),
+       (1, 0, 100, 10445, 8)] ∧
+    (histFrames resetSt hist).map (fun p => (frameStep p.1 p.2).1.all.length) = [127, 68, 67, 92, 61, 44] := by
   decide +kernel
 
 end OpusProps.C18
